@@ -49,11 +49,16 @@ def wf_forkp():
     return W.Workflow([W.T("A", ["src"], ["a"], spec="echo A\n"), W.T("B", ["a"], ["b"], spec="echo B\n", protect=["b"]), W.T("C", ["a"], ["c1", "c2"], spec="echo C\n")])
 
 
+def wf_wide4c():
+    # four independent targets, each asking for more cores than the local pool has (an option the local backend may or may not know)
+    return W.Workflow([W.T(f"T{i}", ["src"], [f"t{i}"], spec=f"echo T{i}\n", options={"cores": 8}) for i in range(4)])
+
+
 def wf_twocomp():
     return W.Workflow([W.T("A", ["src"], ["a"], spec="echo A\n"), W.T("B", ["a"], ["b"], spec="echo B\n"), W.T("X", ["src2"], ["x"], spec="echo X\n")])
 
 
-WORKFLOWS = {"twocomp": wf_twocomp, "shortcut": wf_shortcut, "fork": wf_fork, "chain": wf_chain, "diamond": wf_diamond, "pair": wf_pair, "topdown": wf_topdown, "forkp": wf_forkp}
+WORKFLOWS = {"twocomp": wf_twocomp, "shortcut": wf_shortcut, "fork": wf_fork, "chain": wf_chain, "diamond": wf_diamond, "pair": wf_pair, "topdown": wf_topdown, "forkp": wf_forkp, "wide4c": wf_wide4c}
 
 SUBMIT_EXE = {"slurm": "sbatch", "sge": "qsub", "lsf": "bsub"}
 
